@@ -13,6 +13,8 @@ pub const USERS: [&str; 4] = ["alice", "bob", "carol", "donor"];
 pub const DENOMS: [&str; 4] = ["uwhale", "uusdc", "uatom", "ubtc"];
 /// a token-factory style native denom (same bank semantics, different label / burn handling paths in the contracts)
 pub const FACTORY_DENOM: &str = "factory/migaloo1creatoraddressxyz/ufab";
+/// an IBC voucher denom (a pair told other decimals than (6, 6) for a "fab" second asset uses this one instead of the factory denom)
+pub const PAIR_IBC_DENOM: &str = "ibc/8E27BA2D5493AF5636760E354E46004562C46AB7EC0CC4C1CA14E9E20E2545B5";
 /// a token-factory denom whose last path segment is the name of an ordinary denom (it is NOT that denom)
 pub const LOOKALIKE_DENOM: &str = "factory/mallory/uatom";
 pub const RICH: u128 = u128::MAX / 4;
@@ -67,6 +69,7 @@ pub fn new_app() -> App {
         for a in funded_accounts() {
             let mut coins: Vec<Coin> = DENOMS.iter().map(|d| coin(RICH, *d)).collect();
             coins.push(coin(RICH, FACTORY_DENOM));
+            coins.push(coin(RICH, PAIR_IBC_DENOM));
             coins.push(coin(RICH, LOOKALIKE_DENOM));
             // the ordinary denoms in upper case: different bank denoms that merely look alike
             for d in DENOMS.iter() { coins.push(coin(RICH, d.to_uppercase())); }
@@ -142,7 +145,7 @@ pub fn deploy_pair_ext(kinds: [bool; 2], decimals: [u8; 2], fees: PoolFee, pair_
             let a = deploy_cw20(&mut app, cw20_code, if i == 0 { "TOKA" } else { "TOKB" }, decimals[i].min(18));   // (cw20-base refuses more than 18; the pair is told `decimals[i]` all the same)
             infos.push(token(&a));
         } else {
-            infos.push(native(if fab && i == 1 { FACTORY_DENOM } else { DENOMS[i] }));
+            infos.push(native(if fab && i == 1 { if decimals == [6, 6] { FACTORY_DENOM } else { PAIR_IBC_DENOM } } else { DENOMS[i] }));
         }
     }
     let assets = [infos[0].clone(), infos[1].clone()];
